@@ -564,5 +564,153 @@ def _matrix_to_qubo(qv, spec, rec):
     rec.case(spec, n >= 2 and offdiag, sorted(classes))
 
 
+# ---------------------------------------------------------------------------
+# lifecycle: the same properties along the life of one object.  Conversions and convert_solution are functions of the
+# model *as it is at the time of the call*: exports handed out earlier (and edited by the caller), clear() + rebuild,
+# a variable dropping out followed by refresh() and a new variable coming in, set_mapping - none of them may leave
+# anything behind that a later export or convert_solution still uses.
+
+LIFE_OPS = ("poison_exports", "rebuild", "rebuild_same_labels", "drop_add", "remap", "remap_reverse", "edit")
+
+
+def lifecycle_cases():
+    def for_kind(kind):
+        quad, spin = gen.is_quad(kind), gen.is_spin(kind)
+
+        def for_labels(labels):
+            poly = gen.poly_strategy(labels, 5, 2 if quad else 3, gen.MIXED_COEFS, repeats=False, min_terms=1,
+                                     quad=quad, spin=spin)
+            return st.fixed_dictionaries({
+                "kind": st.just(kind), "labels": st.just(labels),
+                "terms": poly, "terms2": poly, "perm": st.permutations(list(range(len(labels)))),
+                "ops": st.lists(st.sampled_from(LIFE_OPS), min_size=1, max_size=4),
+                "pick": st.integers(0, 7), "coef": gen.INT_COEFS,
+            })
+        return gen.label_pool(False, 2, 4).flatmap(for_labels)
+    return st.sampled_from(gen.LABELLED_KINDS).flatmap(for_kind)
+
+
+def _life_check(qv, M, kind, step, poison):
+    """Every applicable export of M equals M on all assignments under M.mapping; convert_solution inverts it."""
+    spin = gen.is_spin(kind)
+    truth = ref.canon_to_terms(ref.canon(dict(M), spin))
+    mp, n = _mapping(M, "lifecycle/" + step)
+    order = list(range(n))
+    mapped = {}
+    for k, v in truth.items():
+        mk = tuple(mp[l] for l in k)
+        mapped[mk] = mapped.get(mk, 0) + v
+    ts = ref.table(mapped, order, spin)
+    deg = max([len(k) for k in truth], default=0)
+    fns = ["to_enumerated", "to_pubo", "to_puso"] + (["to_qubo", "to_quso"] if deg <= 2 else [])
+    for fn in fns:
+        R = lib(getattr(M, fn), what=fn)
+        dst_spin = METHOD_RESULT[ENUM_OF[kind] if fn == "to_enumerated" else fn][1]
+        res = dict(R)
+        for l in _labels_in(res):
+            if isinstance(l, bool) or not isinstance(l, (int, np.integer)) or not 0 <= l < n:
+                raise Violation("lifecycle/label_out_of_range/%s" % fn, "after %s: label %r; model=%r mapping=%r result=%r" % (step, l, dict(M), mp, res))
+        tr = ref.table(res, order, dst_spin)
+        if not np.array_equal(ts, tr):
+            bad = int(np.nonzero(ts != tr)[0][0])
+            raise Violation("lifecycle/function_differs/%s" % fn,
+                            "after %s: at boolean %r over mapping integers source %r, %s gives %r; model=%r mapping=%r result=%r" %
+                            (step, ref.assignment(order, bad, False), ts[bad], fn, tr[bad], dict(M), mp, res))
+        if poison:
+            # the caller owns the returned object: edit it in place (rescale, shift, overwrite a term)
+            def f(R=R):
+                R *= 3
+                R += 1
+                R[(0,)] = 7
+            lib(f, what="edit of the returned " + fn + " result")
+    variables = set(mp)
+    for r in range(1 << n):
+        bits = [(r >> i) & 1 for i in range(n)]
+        for form_spin in (False, True):
+            vals = [1 - 2 * b for b in bits] if form_spin else list(bits)
+            want = {l: ((1 - 2 * bits[i]) if spin else bits[i]) for l, i in mp.items()}
+            for cont, sol in (("dict", dict(enumerate(vals))), ("list", list(vals)), ("tuple", tuple(vals))):
+                cs = lib(M.convert_solution, sol, spin=form_spin, what="convert_solution")
+                if not isinstance(cs, dict) or set(cs) != variables or cs != want:
+                    raise Violation("lifecycle/convert_solution/%s" % cont,
+                                    "after %s: %s.convert_solution(%r, spin=%r) = %r, expected %r; model=%r mapping=%r" %
+                                    (step, kind, sol, form_spin, cs, want, dict(M), mp))
+
+
+def run_lifecycle(spec, rec):
+    import warnings
+    import qubovert as qv
+    kind = spec["kind"]
+    labels = list(spec["labels"])
+    spin = gen.is_spin(kind)
+    with warnings.catch_warnings():
+        warnings.simplefilter("ignore")
+        M = lib(gen.build, qv, kind, spec["terms"], what="build")
+        lib(M.refresh, what="refresh")
+        _life_check(qv, M, kind, "build", False)
+        classes = {kind}
+        for op in spec["ops"]:
+            if op == "poison_exports":
+                _life_check(qv, M, kind, "build", True)
+            elif op in ("rebuild", "rebuild_same_labels"):
+                lib(M.clear, what="clear")
+                if op == "rebuild":
+                    terms = spec["terms2"]
+                else:                       # the same polynomial entered in another order: same labels, other integers
+                    terms = list(reversed([list(t) for t in spec["terms"]]))
+
+                def f():
+                    for k, v in terms:
+                        M[tuple(k)] += v
+                lib(f, what="rebuild")
+                lib(M.refresh, what="refresh")
+            elif op == "drop_add":
+                vs = sorted(M.variables, key=labels.index) if all(v in labels for v in M.variables) else []
+                if not vs:
+                    rec.add("lifecycle_skipped_step")
+                    continue
+                gone = vs[spec["pick"] % len(vs)]
+                keep = [v for v in vs if v != gone]
+
+                def f():
+                    for k in [k for k in dict.keys(M) if gone in k]:
+                        M[k] -= M[k]
+                lib(f, what="cancel")
+                lib(M.refresh, what="refresh")
+
+                def g():
+                    new = "n_e_w"
+                    M[(new,) if not keep else (keep[-1], new)] += spec["coef"]
+                lib(g, what="add variable")
+            elif op in ("remap", "remap_reverse"):
+                mp = M.mapping
+                n = len(mp)
+                if n < 2:
+                    rec.add("lifecycle_skipped_step")
+                    continue
+                new = {l: (i + 1) % n for l, i in mp.items()}
+                if op == "remap":
+                    lib(M.set_mapping, new, what="set_mapping")
+                else:
+                    lib(M.set_reverse_mapping, {i: l for l, i in new.items()}, what="set_reverse_mapping")
+                if M.mapping != new:
+                    raise Violation("lifecycle/%s_not_installed" % op, "asked %r got %r" % (new, M.mapping))
+            elif op == "edit":
+                keys = sorted(dict.keys(M), key=repr)
+                if not keys:
+                    rec.add("lifecycle_skipped_step")
+                    continue
+                k = keys[spec["pick"] % len(keys)]
+
+                def f():
+                    M[k] += spec["coef"]
+                lib(f, what="edit")
+                lib(M.refresh, what="refresh")
+            classes.add(op)
+            _life_check(qv, M, kind, op, False)
+    rec.case(spec, len(set(spec["ops"])) >= 2, sorted(classes))
+
+
 def subchecks(tier):
-    return [Sub("convert", cases(), run_case, quick=48000, thorough=600000)]
+    return [Sub("convert", cases(), run_case, quick=48000, thorough=600000),
+            Sub("lifecycle", lifecycle_cases(), run_lifecycle, quick=5000, thorough=80000)]
